@@ -136,7 +136,11 @@ func BuildMod(s ModShape) *Module {
 		m.Imports = append(m.Imports, Import{Module: "env", Name: "mem", Kind: KindMemory, Id: "memory", Lim: Limits{Min: 1, HasMax: true, Max: 4}})
 	}
 	if s.Memory > 0 {
-		m.Datas = append(m.Datas, Data{Offset: 8, Bytes: TrickyData})
+		off := uint32(8)
+		if s.Memory%2 == 0 {
+			off = 64 // the first value whose unsigned and signed LEB128 encodings differ
+		}
+		m.Datas = append(m.Datas, Data{Offset: off, Bytes: TrickyData})
 		if s.Memory == 2 {
 			m.Datas = append(m.Datas, Data{Offset: 65535, Bytes: []byte{0x2a}})
 		}
@@ -264,9 +268,85 @@ func BuildMod(s ModShape) *Module {
 	return m
 }
 
-// ModFamily returns the items of the mod family.
-func ModFamily() []Item {
+// extraMods are hand-shaped corner modules that the shape product does not reach.
+func extraMods() []Item {
 	var out []Item
+	nullary := func(id string, v int32) Func {
+		return Func{Id: id, Body: []Instr{I32Const(v), Ins(OpDrop)}}
+	}
+	// start names the second / third of several parameterless functions
+	for k := 0; k < 3; k++ {
+		m := &Module{Funcs: []Func{nullary("a", 1), nullary("b", 2), nullary("c", 3)}, HasStart: true, Start: uint32(k)}
+		out = append(out, Item{Family: "mod", Key: fmt.Sprintf("extra|start=function %d of 3", k), Module: m})
+	}
+	{
+		m := &Module{Imports: []Import{{Module: "env", Name: "init", Kind: KindFunc, Id: "env.init"}}, Funcs: []Func{nullary("a", 1), nullary("b", 2)}, HasStart: true, Start: 0}
+		out = append(out, Item{Family: "mod", Key: "extra|start=imported function", Module: m})
+		m2 := *m
+		m2.Start = 2
+		out = append(out, Item{Family: "mod", Key: "extra|start=second defined after an import", Module: &m2})
+	}
+	// anonymous functions, each exported
+	{
+		m := &Module{Funcs: []Func{nullary("", 1), nullary("", 2), nullary("named", 3)},
+			Exports: []Export{{Name: "first", Kind: KindFunc, Idx: 0}, {Name: "second", Kind: KindFunc, Idx: 1}, {Name: "third", Kind: KindFunc, Idx: 2}}}
+		out = append(out, Item{Family: "mod", Key: "extra|anonymous functions exported", Module: m})
+	}
+	// anonymous import next to a named one, anonymous parameters
+	{
+		m := &Module{Name: "type.02", Imports: []Import{
+			{Module: "env", Name: "foo", Kind: KindFunc},
+			{Module: "env", Name: "bar", Kind: KindFunc, Id: "bar", Sig: FuncType{Params: []ValType{I32, I32}}, ParamIds: []string{"", "second"}},
+		}, Types: []TypeDef{{Id: "bar", FuncType: FuncType{}}}}
+		out = append(out, Item{Family: "mod", Key: "extra|anonymous import", Module: m})
+	}
+	// global initialisers at the boundaries of every type
+	{
+		m := &Module{}
+		for i, v := range []int32{0, -1, math.MinInt32, math.MaxInt32} {
+			m.Globals = append(m.Globals, Global{Id: fmt.Sprintf("i%d", i), Type: I32, Mut: i%2 == 1, Init: I32Const(v)})
+		}
+		for i, v := range []int64{0, -1, math.MinInt64, math.MaxInt64} {
+			m.Globals = append(m.Globals, Global{Id: fmt.Sprintf("l%d", i), Type: I64, Mut: i%2 == 1, Init: I64Const(v)})
+		}
+		out = append(out, Item{Family: "mod", Key: "extra|integer global initialisers", Module: m})
+		m2 := &Module{}
+		for i, v := range []uint32{0x80000000, 0x3fc00000, 0x7f7fffff, 0x00000001} {
+			m2.Globals = append(m2.Globals, Global{Id: fmt.Sprintf("f%d", i), Type: F32, Mut: i%2 == 1, Init: F32Const(v)})
+		}
+		out = append(out, Item{Family: "mod", Key: "extra|f32 global initialisers", Module: m2})
+		m3 := &Module{}
+		for i, v := range []uint64{0x8000000000000000, 0x3ff8000000000000, 0x7fefffffffffffff, 0x0000000000000001} {
+			m3.Globals = append(m3.Globals, Global{Id: fmt.Sprintf("d%d", i), Type: F64, Mut: i%2 == 1, Init: F64Const(v)})
+		}
+		out = append(out, Item{Family: "mod", Key: "extra|f64 global initialisers", Module: m3})
+	}
+	// unnamed table / memory / globals, numeric references only
+	{
+		m := &Module{Table: &Table{Lim: Limits{Min: 1}}, Memory: &Memory{Lim: Limits{Min: 1}},
+			Globals: []Global{{Type: I32, Init: I32Const(1)}},
+			Funcs:   []Func{{Id: "f", Body: []Instr{InsIdx(OpGlobalGet, 0), Ins(OpDrop)}}},
+			Elems:   []Elem{{Offset: 0, Funcs: []uint32{0}}},
+			Exports: []Export{{Name: "t", Kind: KindTable, Idx: 0}, {Name: "m", Kind: KindMemory, Idx: 0}, {Name: "g", Kind: KindGlobal, Idx: 0}}}
+		out = append(out, Item{Family: "mod", Key: "extra|anonymous table memory global", Module: m})
+	}
+	// named element and data segments
+	{
+		m := &Module{Table: &Table{Id: "tab", Lim: Limits{Min: 2}}, Memory: &Memory{Id: "mem", Lim: Limits{Min: 1}},
+			Funcs: []Func{nullary("f", 1)},
+			Elems: []Elem{{Id: "seg.e#0", Offset: 1, Funcs: []uint32{0}}},
+			Datas: []Data{{Id: "seg.d#0", Offset: 3, Bytes: []byte("xyz")}}}
+		out = append(out, Item{Family: "mod", Key: "extra|named segments", Module: m})
+	}
+	// the empty module, with and without a name
+	out = append(out, Item{Family: "mod", Key: "extra|empty", Module: &Module{}})
+	out = append(out, Item{Family: "mod", Key: "extra|empty named", Module: &Module{Name: "empty_with.name#1"}})
+	return out
+}
+
+// ModFamily returns the items of the mod family: the hand-shaped corners, then the shape product.
+func ModFamily() []Item {
+	out := extraMods()
 	for _, s := range ModShapes() {
 		out = append(out, Item{Family: "mod", Key: s.String(), Module: BuildMod(s)})
 	}
